@@ -52,4 +52,9 @@ CHECKS.update({
 CHECKS.update({
  'C09': _c('Depth-1 layers enumerate every operator (binary, reflected, in-place, comparisons, logical, unary, reductions with axis/keepdims, conversions, construction, every get/set index form x value form, read-only targets) over every operand kind pairing and all vectors of size 1-3 / arrays up to 2x2 (thorough 2x3) over a 4-value alphabet; history layers run explicit-state search over in-place operations and item assignments on a heap of sparse objects inside a value lattice - to CLOSURE for a size-2 vector (all histories of any length), depth-bounded for the 4-5 object heaps incl. a row view aliasing the array. Oracle: NumPy on the dense images; representation invariant in every state.', 'DESIGN.md section 3, C09 and 3b'),
 })
+
+CHECKS.update({
+ 'C03': _c('Complete grids of vle calls (all 31 chemical subsets of a package with volatile, gas-locked and solid-locked members x magnitude patterns x 7 initial phase distributions x all 11 specification pairs x value grids), lle/vlle and sle grids, and histories of 2-3 consecutive equilibrium calls on the same stream (the cached solver objects keep warm-start state); per-chemical phase sums, non-negativity and phase-lock rules after every call that returns.', 'DESIGN.md section 3, C03'),
+ 'C04': _c('The C03 driver with specification oracles: exact T/P, H/S reproduction within the solver resolution, V-spec bracketing against an independent Rachford-Rice reference flash (bisection on K re-evaluated from the package models), phase-boundary and iso-fugacity clauses for homologous families with Dortmund, Raoult-law agreement for ideal packages, feed-scaling; histories of 2-3 calls for warm-start dependence.', 'DESIGN.md section 3, C04'),
+})
 NOT_APPLICABLE = {k: v for k, v in NOT_APPLICABLE.items() if k not in CHECKS}
